@@ -11,7 +11,8 @@ def scenario_list(ctx, which):
     quick = ctx.tier == 'quick'
     base = [W.scen_basic(rng), W.scen_faults(rng), W.scen_mess(rng), W.scen_noise(rng), W.scen_zero(rng), W.scen_die(rng),
             W.scen_error_pass(rng), W.scen_grow(rng), W.scen_save_temps(rng), W.scen_tidy(rng), W.scen_dotdot(rng),
-            W.scen_modes(rng, False), W.scen_modes(rng, True), W.scen_insane(rng), W.scen_format_insane(rng), W.scen_skip_sanity(rng), W.scen_vanish(rng), W.scen_die_busy(rng), W.scen_helper_hangs(rng)]
+            W.scen_modes(rng, False), W.scen_modes(rng, True), W.scen_insane(rng), W.scen_format_insane(rng), W.scen_skip_sanity(rng), W.scen_vanish(rng), W.scen_die_busy(rng), W.scen_helper_hangs(rng),
+            W.scen_main_helper_hangs(rng, 'clang'), W.scen_main_helper_hangs(rng, 'gcda'), W.scen_stdin_closed(rng)]
     passes = [p for p in W.REAL_PASSES if p != 'peep' or not quick]
     real = [W.scen_real_pass(rng, w) for w in passes]
     if not quick:
